@@ -1,96 +1,29 @@
-(* C09 -- the encoder model's output lies in the shape grammar; the grammar without the known gaps is included in the
-   published schema (checked by computation on the regenerated schema); hence every full dump of a loadable tree without
-   a known gap validates.  Refutations for the five known gaps. *)
+(* C09 -- the encoder model's output lies in the shape grammar (object skeleton, expressions per class, docstring
+   section items per kind); the grammar is included in the published schema (checked by computation on the regenerated
+   schema); hence every full dump of a loadable tree validates. *)
 From Coq Require Import List ZArith String Ascii Bool Arith Lia.
-From Verif Require Import Lib.Sexp Model.C09_json Gen.C09_schema Model.C09_enc Proofs.C09_schema.
+From Verif Require Import Lib.Sexp Model.C09_json Gen.C09_schema Gen.C09_exprs Model.C09_expr Model.C09_enc Proofs.C09_schema Proofs.C09_mem Proofs.C09_expr.
 Import ListNotations.
 Open Scope string_scope.
 Open Scope list_scope.
 Open Scope nat_scope.
 
-(* ---------- membership without heights ---------- *)
-
-Section Intro.
-  Variable G : grammar.
-  Definition M (sh : shape) (j : json) : Prop := exists h, mem G h sh j = true.
-
-  Lemma M_common : forall A (f : A -> shape) (v : A -> json) l,
-    Forall (fun x => M (f x) (v x)) l -> exists h, Forall (fun x => mem G h (f x) (v x) = true) l.
-  Proof.
-    induction 1 as [|x l [h1 H1] _ [h2 H2]]; [exists 0; constructor|].
-    exists (Nat.max h1 h2). constructor.
-    - eapply mem_mono; [|exact H1]. lia.
-    - eapply Forall_impl; [|exact H2]. intros a Ha. eapply mem_mono; [|exact Ha]. lia.
-  Qed.
-
-  Lemma M_null : M ShNull JNull. Proof. now exists 1. Qed.
-  Lemma M_int : forall z, M ShInt (JInt z). Proof. now exists 1. Qed.
-  Lemma M_str : forall s, M ShStr (JStr s). Proof. now exists 1. Qed.
-  Lemma M_any : forall j, M ShAny j. Proof. intros j. exists 1. now destruct j. Qed.
-  Lemma M_lit : forall s, M (ShLit s) (JStr s). Proof. intros s. exists 1. simpl. apply String.eqb_refl. Qed.
-
-  Lemma M_arr : forall e l, Forall (M e) l -> M (ShArr e) (JArr l).
-  Proof.
-    intros e l H. destruct (M_common json (fun _ => e) (fun x => x) l H) as [h Hh].
-    exists (S h). simpl. apply forallb_forall. rewrite Forall_forall in Hh. auto.
-  Qed.
-
-  Lemma M_map : forall v kvs, Forall (fun kv => M v (snd kv)) kvs -> M (ShMap v) (JObj kvs).
-  Proof.
-    intros v kvs H. destruct (M_common (string * json) (fun _ => v) (fun kv => snd kv) kvs H) as [h Hh].
-    exists (S h). simpl. apply forallb_forall. rewrite Forall_forall in Hh. auto.
-  Qed.
-
-  Definition entry_ok (fs : list (string * (bool * shape))) (kv : string * json) : Prop :=
-    exists m fsh, lookup (fst kv) fs = Some (m, fsh) /\ M fsh (snd kv).
-
-  Lemma M_obj : forall fs kvs, Forall (entry_ok fs) kvs ->
-    forallb (fun f => negb (fst (snd f)) || key_in (fst f) kvs) fs = true -> M (ShObj fs) (JObj kvs).
-  Proof.
-    intros fs kvs H Hm.
-    assert (X : exists h, Forall (fun kv => match lookup (fst kv) fs with Some (_, fsh) => mem G h fsh (snd kv) | None => false end = true) kvs).
-    { clear Hm. induction H as [|kv l [m [fsh [L [h1 H1]]]] _ [h2 H2]]; [exists 0; constructor|].
-      exists (Nat.max h1 h2). constructor.
-      - rewrite L. eapply mem_mono; [|exact H1]. lia.
-      - eapply Forall_impl; [|exact H2]. intros a Ha. cbv beta in *.
-        destruct (lookup (fst a) fs) as [[m' fsh']|]; [|discriminate]. eapply mem_mono; [|exact Ha]. lia. }
-    destruct X as [h Hh]. exists (S h). simpl. apply andb_true_iff. split; [|assumption].
-    apply forallb_forall. rewrite Forall_forall in Hh. auto.
-  Qed.
-
-  Lemma M_union : forall l a j, In a l -> M a j -> M (ShUnion l) j.
-  Proof.
-    intros l a j Hin [h H]. exists (S h).
-    assert (E : existsb (fun a => mem G h a j) l = true) by (apply existsb_exists; eauto).
-    destruct j; exact E.
-  Qed.
-
-  Lemma M_ref : forall nt sh j, lookup nt G = Some sh -> M sh j -> M (ShRef nt) j.
-  Proof.
-    intros nt sh j L [h H]. exists (S h).
-    assert (E : match lookup nt G with Some sh' => mem G h sh' j | None => false end = true) by now rewrite L.
-    destruct j; exact E.
-  Qed.
-
-  Lemma entry_optfield : forall fs k o, match o with Some v => entry_ok fs (k, v) | None => True end ->
-    Forall (entry_ok fs) (optfield k o).
-  Proof. intros fs k [v|] H; simpl; constructor; auto. Qed.
-End Intro.
-
-Ltac entry := eexists; eexists; split; [reflexivity|].
+Lemma entry_optfield : forall G fs k o, match o with Some v => entry_ok G fs (k, v) | None => True end ->
+  Forall (entry_ok G fs) (optfield k o).
+Proof. intros G fs k [v|] H; simpl; constructor; auto. Qed.
 
 (* ---------- leaves of the grammar ---------- *)
 
 Section Leaves.
   Variable G : grammar.
+  Hypothesis HG : lookup expr_nt G = Some sh_expression.
 
-  Lemma M_annotation : forall a, M G sh_annotation (enc_aval a).
+  Lemma M_annotation : forall a, aval_ok a = true -> M G sh_annotation (enc_aval a).
   Proof.
-    intros [|s|f]; simpl.
+    intros [|s|cls vals|j|] Hok; simpl; try discriminate.
     - eapply M_union; [left; reflexivity|apply M_null].
     - eapply M_union; [right; left; reflexivity|apply M_str].
-    - eapply M_union; [right; right; left; reflexivity|].
-      apply M_map. apply Forall_forall. intros kv _. apply M_any.
+    - eapply M_union; [right; right; left; reflexivity|]. now apply expr_in_grammar.
   Qed.
 
   Lemma M_optint : forall o, M G sh_opt_int (enc_optz o).
@@ -105,24 +38,63 @@ Section Leaves.
 
   Lemma M_deco : forall d, deco_ok d = true -> M G sh_decorator (enc_deco d).
   Proof.
-    intros [v [z|] e] H; [|discriminate]. unfold enc_deco, sh_decorator. simpl.
+    intros [v [z|] e] H; [|discriminate]. unfold deco_ok in H. simpl in H. unfold enc_deco, sh_decorator. simpl.
     apply M_obj; [|reflexivity]. repeat constructor.
-    - entry. apply M_annotation.
+    - entry. now apply M_annotation.
     - entry. apply M_int.
     - entry. apply M_optint.
   Qed.
 
+  Lemma M_plain : forall a d, aval_ok a = true -> M G sh_plain (JObj (enc_element a d)).
+  Proof.
+    intros a d H. unfold sh_plain, enc_element. apply M_obj; [|reflexivity]. repeat constructor.
+    - entry. now apply M_annotation.
+    - entry. apply M_str.
+  Qed.
+
+  Lemma M_item : forall k i, item_matches k i = true ->
+    match k with
+    | SKPlain => M G sh_plain (enc_item i)
+    | SKNamed => M G sh_named (enc_item i)
+    | SKExamples => M G (ShArr ShStr) (enc_item i)
+    | _ => True
+    end.
+  Proof.
+    intros k i H. destruct k, i; simpl in H; try discriminate; try exact I.
+    - now apply M_plain.
+    - apply andb_true_iff in H. destruct H as [Ha Hv].
+      cbn [enc_item]. unfold sh_named, enc_element. apply M_obj.
+      + repeat (apply Forall_cons).
+        * entry. apply M_str.
+        * entry. now apply M_annotation.
+        * entry. apply M_str.
+        * apply entry_optfield. destruct value as [|sv|cv vv|jv|]; simpl; try discriminate; [exact I| |]; entry.
+          -- eapply M_union; [left; reflexivity|apply M_str].
+          -- eapply M_union; [right; left; reflexivity|]. now apply expr_in_grammar.
+      + destruct value; reflexivity.
+    - cbn [enc_item]. apply M_arr. repeat constructor; apply M_str.
+  Qed.
+
+  Lemma M_secvalue : forall k v, secvalue_matches k v = true -> M G (sh_secvalue k) (enc_secvalue v).
+  Proof.
+    intros k v H. destruct k, v; simpl in H; try discriminate; cbn [sh_secvalue enc_secvalue].
+    - apply M_str.
+    - apply M_arr. apply Forall_map. apply Forall_forall. intros x Hin. rewrite forallb_forall in H. exact (M_item SKPlain x (H x Hin)).
+    - apply M_arr. apply Forall_map. apply Forall_forall. intros x Hin. rewrite forallb_forall in H. exact (M_item SKNamed x (H x Hin)).
+    - apply M_arr. apply Forall_map. apply Forall_forall. intros x Hin. rewrite forallb_forall in H. exact (M_item SKExamples x (H x Hin)).
+    - now apply M_plain.
+  Qed.
+
   Lemma M_section : forall s, section_ok s = true -> M G sh_section (enc_section s).
   Proof.
-    intros [k v t] Hok. unfold section_ok in Hok. cbn [sec_kind] in Hok. apply str_in_In in Hok.
-    unfold enc_section, sh_section. cbn [sec_kind sec_value sec_title].
+    intros [kind v t] Hok. unfold section_ok in Hok. cbn [sec_kind sec_value] in Hok.
+    destruct (lookup kind section_table) as [k|] eqn:L; [|discriminate].
+    unfold sh_section. apply M_union with (a := sh_section_row (kind, k)); [apply in_map; eapply lookup_In; eauto|].
+    unfold enc_section, sh_section_row. cbn [sec_kind sec_value sec_title fst snd].
     apply M_obj.
     - constructor; [|constructor].
-      + entry. now apply M_lits.
-      + entry. destruct v as [s|l|f]; simpl.
-        * eapply M_union; [left; reflexivity|apply M_str].
-        * eapply M_union; [right; left; reflexivity|]. apply M_arr. apply Forall_forall. intros x _. apply M_any.
-        * eapply M_union; [right; right; left; reflexivity|]. apply M_map. apply Forall_forall. intros x _. apply M_any.
+      + entry. apply M_lit.
+      + entry. now apply M_secvalue.
       + apply entry_optfield. destruct (truthy_title t) as [j|] eqn:T; [|exact I].
         destruct t as [[|c r]|]; simpl in T; try discriminate; inversion T; subst; entry; apply M_str.
     - destruct t as [[|c r]|]; reflexivity.
@@ -142,15 +114,17 @@ Section Leaves.
 
   Lemma M_param : forall p, param_ok p = true -> M G sh_parameter (enc_param p).
   Proof.
-    intros [n a k d doc] H. unfold param_ok in H. cbn [p_kind p_doc] in H. apply andb_true_iff in H. destruct H as [Hk Hd].
+    intros [n a k d doc] H. unfold param_ok in H. cbn [p_kind p_doc p_annotation p_default] in H.
+    apply andb_true_iff in H. destruct H as [H Hdf]. apply andb_true_iff in H. destruct H as [H Han].
+    apply andb_true_iff in H. destruct H as [Hk Hd].
     destruct k as [k|]; [|discriminate]. apply str_in_In in Hk.
     unfold enc_param, sh_parameter. cbn [p_name p_annotation p_kind p_default p_doc enc_optstr].
     apply M_obj.
     - repeat (apply Forall_cons).
       + entry. apply M_str.
-      + entry. apply M_annotation.
+      + entry. now apply M_annotation.
       + entry. now apply M_lits.
-      + entry. apply M_annotation.
+      + entry. now apply M_annotation.
       + apply entry_optfield. destruct doc as [doc|]; simpl; [|exact I].
         entry. now apply M_docstring.
     - destruct doc; reflexivity.
@@ -191,6 +165,9 @@ Lemma G_enc_root : lookup root_nt G_enc =
   Some (ShUnion [sh_alias; sh_object "module"; sh_object "class"; sh_object "function"; sh_object "attribute"]).
 Proof. reflexivity. Qed.
 
+Lemma G_enc_expr : lookup expr_nt G_enc = Some sh_expression.
+Proof. reflexivity. Qed.
+
 Theorem enc_in_grammar : forall t, loadable t = true -> generated_by G_enc root_nt (enc_full t).
 Proof.
   intros t. unfold generated_by. change (loadable t = true -> M G_enc (ShRef root_nt) (enc_full t)).
@@ -228,7 +205,7 @@ Proof.
         -- entry. apply M_str.
       * apply entry_optfield. destruct lineno; simpl; [entry; apply M_int|exact I].
       * apply entry_optfield. destruct endlineno; simpl; [entry; apply M_int|exact I].
-      * apply entry_optfield. destruct doc as [d|]; simpl; [|exact I]. entry. now apply M_docstring.
+      * apply entry_optfield. destruct doc as [d|]; simpl; [|exact I]. entry. now apply (M_docstring _ G_enc_expr).
       * (* labels, members *)
         repeat (apply Forall_cons); try apply Forall_nil.
         -- entry. apply M_arr. apply Forall_map. apply Forall_forall. intros x _. apply M_str.
@@ -237,19 +214,49 @@ Proof.
       * (* kind-specific part *)
         destruct spec as [|bases decos|decos params returns|value annotation]; simpl in Hspec |- *.
         -- constructor.
-        -- repeat (apply Forall_cons); try apply Forall_nil.
-           ++ entry. apply M_arr. apply Forall_map. apply Forall_forall. intros x _. apply M_annotation.
-           ++ entry. eapply M_list; [apply M_deco|assumption].
-        -- apply andb_true_iff in Hspec. destruct Hspec as [Hd Hp].
+        -- apply andb_true_iff in Hspec. destruct Hspec as [Hb Hd].
            repeat (apply Forall_cons); try apply Forall_nil.
-           ++ entry. eapply M_list; [apply M_deco|assumption].
-           ++ entry. eapply M_list; [apply M_param|assumption].
-           ++ entry. apply M_annotation.
-        -- apply Forall_app; split; apply entry_optfield.
-           ++ destruct value; simpl; try exact I; entry; apply (M_annotation _ (AStr s)) || apply (M_annotation _ (AExpr fields)).
-           ++ destruct annotation; simpl; try exact I; entry; apply (M_annotation _ (AStr s)) || apply (M_annotation _ (AExpr fields)).
+           ++ entry. eapply M_list; [apply (M_annotation _ G_enc_expr)|assumption].
+           ++ entry. eapply M_list; [apply (M_deco _ G_enc_expr)|assumption].
+        -- apply andb_true_iff in Hspec. destruct Hspec as [Hspec Hr]. apply andb_true_iff in Hspec. destruct Hspec as [Hd Hp].
+           repeat (apply Forall_cons); try apply Forall_nil.
+           ++ entry. eapply M_list; [apply (M_deco _ G_enc_expr)|assumption].
+           ++ entry. eapply M_list; [apply (M_param _ G_enc_expr)|assumption].
+           ++ entry. now apply (M_annotation _ G_enc_expr).
+        -- apply andb_true_iff in Hspec. destruct Hspec as [Hv Ha].
+           apply Forall_app; split; apply entry_optfield.
+           ++ destruct value as [|sv|cv vv|jv|]; simpl; try discriminate; try exact I; entry;
+                [exact (M_annotation _ G_enc_expr (AStr sv) Hv)|exact (M_annotation _ G_enc_expr (AExpr cv vv) Hv)].
+           ++ destruct annotation as [|sv|cv vv|jv|]; simpl; try discriminate; try exact I; entry;
+                [exact (M_annotation _ G_enc_expr (AStr sv) Ha)|exact (M_annotation _ G_enc_expr (AExpr cv vv) Ha)].
     + destruct spec as [|bases decos|decos params returns|value annotation], lineno, endlineno, doc;
         try reflexivity; destruct value, annotation; reflexivity.
+Qed.
+
+(* a loadable tree holds no object json cannot serialise *)
+Lemma aval_ok_not_object : forall a, aval_ok a = true -> is_object a = false.
+Proof. now intros [| | | |]. Qed.
+
+Lemma spec_ok_no_object : forall k, spec_ok k = true -> spec_has_object k = false.
+Proof.
+  intros [|bases decos|decos params returns|value annotation] H; simpl in *; try reflexivity.
+  - apply andb_true_iff in H. destruct H as [H Hr]. apply andb_true_iff in H. destruct H as [_ Hp].
+    rewrite (aval_ok_not_object _ Hr), orb_false_r.
+    induction params as [|p r IH]; [reflexivity|]. simpl in *. apply andb_true_iff in Hp. destruct Hp as [Hp1 Hp2].
+    rewrite (IH Hp2), orb_false_r. unfold param_ok in Hp1. apply andb_true_iff in Hp1. destruct Hp1 as [Hp1 Hdf].
+    apply andb_true_iff in Hp1. destruct Hp1 as [_ Ha]. now rewrite (aval_ok_not_object _ Ha), (aval_ok_not_object _ Hdf).
+  - apply andb_true_iff in H. destruct H as [_ Ha]. now apply aval_ok_not_object.
+Qed.
+
+Lemma loadable_no_object : forall t, loadable t = true -> has_object t = false.
+Proof.
+  induction t as [name target path lineno endlineno|spec name path fp relf relpf lineno endlineno doc labels members IH] using obj_ind';
+    intros Hl; [reflexivity|].
+  cbn [loadable] in Hl. apply andb_true_iff in Hl. destruct Hl as [Hl Hm]. apply andb_true_iff in Hl. destruct Hl as [Hl _].
+  apply andb_true_iff in Hl. destruct Hl as [Hs _].
+  cbn [has_object]. rewrite (spec_ok_no_object _ Hs). simpl.
+  induction members as [|[n m] r IHr]; [reflexivity|]. simpl in *. apply andb_true_iff in Hm. destruct Hm as [Hm1 Hm2].
+  inversion IH as [|x l IH1 IH2]; subst. simpl in IH1. rewrite (IH1 Hm1). simpl. now apply IHr.
 Qed.
 
 (* ---------- inclusion of the grammar in the regenerated schema, and the main theorem ---------- *)
@@ -302,7 +309,7 @@ Definition witness_F4 : obj := mod_with (FPOne "/p/m.py") (Some (mkDoc "d" (Some
 Definition witness_F5 : obj :=
   mod_with (FPOne "/p/m.py")
            (Some (mkDoc "d" (Some 1%Z) (Some 1%Z)
-                        [mkSection "admonition" (SVElem [("annotation", JStr "note"); ("description", JStr "x")]) (Some "Note")])) [].
+                        [mkSection "admonition" (SVElem (AStr "note") "x") (Some "Note")])) [].
 
 Lemma former_gap_witnesses_validate :
   forallb (fun t => loadable t && match validates_doc 64 (enc_full t) with Some true => true | _ => false end)
@@ -314,14 +321,20 @@ Proof. vm_compute. reflexivity. Qed.
 Definition sample_doc : docstring :=
   mkDoc "Summary." (Some 2%Z) (Some 4%Z)
         [mkSection "text" (SVText "Summary.") None;
-         mkSection "parameters" (SVItems [JObj [("name", JStr "a"); ("annotation", JNull); ("description", JStr "A.")]]) (Some "Parameters:");
+         mkSection "parameters" (SVItems [INamed "a" ANone "A." ANone; INamed "b" (AExpr "ExprName" [FStr "int"]) "B." (AStr "1");
+                                               INamed "c" ANone "C." (AExpr "ExprName" [FStr "a"])]) (Some "Parameters:");
+         mkSection "raises" (SVItems [IPlain (AStr "ValueError") "bad."]) None;
+         mkSection "examples" (SVItems [IExample "text" "Text."; IExample "examples" ">>> 1"]) None;
          mkSection "modules" (SVItems []) None;
-         mkSection "deprecated" (SVElem [("annotation", JStr "1.0"); ("description", JStr "old")]) None].
+         mkSection "deprecated" (SVElem (AStr "1.0") "old") None].
 
 Definition sample_tree : obj :=
   OObj KModule "pkg" "pkg" (FPList ["/p/pkg"]) "pkg" "pkg" None None (Some sample_doc) []
     [("os", OAlias "os" "os" "pkg.os" None None);
-     ("C", OObj (KClass [AStr "B"; AExpr [("cls", JStr "ExprName"); ("name", JStr "B")]] [mkDeco (AStr "deco") (Some 3%Z) (Some 3%Z)])
+     ("C", OObj (KClass [AStr "B"; AExpr "ExprName" [FStr "B"];
+                       AExpr "ExprSubscript" [FExpr "ExprName" [FStr "Dict"];
+                                              FExpr "ExprTuple" [FList [FExpr "ExprName" [FStr "str"]; FStr "1"]; FBool true]]]
+                      [mkDeco (AExpr "ExprCall" [FList [FStr "1"; FExpr "ExprKeyword" [FNone; FStr "k"; FStr "2"]]; FExpr "ExprName" [FStr "deco"]]) (Some 3%Z) (Some 3%Z)])
               "C" "pkg.C" (FPOne "/p/pkg/__init__.py") "pkg/__init__.py" "pkg/__init__.py" (Some 3%Z) (Some 9%Z) None ["dataclass"]
               [("f", OObj (KFunction [] [mkParam "self" ANone (Some "positional or keyword") ANone None;
                                          mkParam "x" (AStr "int") (Some "keyword-only") (AStr "1") (Some sample_doc)] ANone)
@@ -338,3 +351,4 @@ Proof. vm_compute. reflexivity. Qed.
 
 Example sample_tree_member : mem G_enc 40 (ShRef root_nt) (enc_full sample_tree) = true.
 Proof. vm_compute. reflexivity. Qed.
+
